@@ -900,6 +900,10 @@ func (g *gen) randWsList() string {
 func genHistory(o *Out, rng *rand.Rand, id int, length int, profile string) []string {
 	g := &gen{rng: rng, w: newWorld(), o: o, stat: o.Stats, profile: profile}
 	o.Emit(fmt.Sprintf("hist %d", id), "hist")
+	if profile == "frag" {
+		g.fragHistory(length)
+		return g.lines
+	}
 	g.pickPlans()
 	created := map[string]bool{}
 	// initial population
@@ -1066,6 +1070,111 @@ func genHistory(o *Out, rng *rand.Rand, id int, length int, profile string) []st
 		g.drain()
 	}
 	return g.lines
+}
+
+// fragRanges: pairwise disjoint ranges, one per ClusterCIDR name (the standing assumption of the Lean history theorems)
+var fragRanges = map[string]rangeChoice{
+	"a": {"10.0.0.0/26", "", 4}, "b": {"10.0.1.0/26", "fd00::/122", 4}, "c": {"10.0.2.0/27", "", 4},
+	"d": {"", "fd00::100/122", 4}, "e": {"10.0.3.0/28", "", 4}, "f": {"10.0.4.0/25", "fd00::200/121", 5},
+}
+var fragSel = []*corev1.NodeSelector{
+	nil, nil, sel(rq("zone", "In", "a")), sel(rq("zone", "In", "a", "b")), sel(rq("zone", "NotIn", "b")), sel(rq("gpu", "Exists")),
+	sel(rq("gpu", "DoesNotExist")), sel(rq("zone", "In", "a"), rq("gpu", "Exists")), sel(rq("rack", "Gt", "5")),
+	{NodeSelectorTerms: []corev1.NodeSelectorTerm{}}, sel(rq("rack", "Gt", "x")),
+}
+
+// fragHistory: a random history inside the fragment the Lean theorems of Safety.lean / Tight.lean quantify over -
+// ClusterCIDRs with pairwise disjoint ranges (each name at most once), one start, no label edits, nobody else writes pod
+// CIDRs, node writes succeed or fail (never applied-but-reported-failed), a node name is re-used only after its deletion
+// was delivered, delete notifications carry the final state.  Inside it the judge runs without any envelope.
+func (g *gen) fragHistory(length int) {
+	rng := g.rng
+	w := g.w
+	g.do("boot - - -")
+	usedCC := map[string]bool{}
+	ccNames := []string{"a", "b", "c", "d", "e", "f"}
+	addCC := func(c string) {
+		usedCC[c] = true
+		rc := fragRanges[c]
+		hb := rc.hb
+		if rng.Intn(3) == 0 {
+			hb++
+		}
+		g.do(fmt.Sprintf("ccAdd %s %d %s %s %s", c, hb, encField(rc.v4), encField(rc.v6), encRawSel(fragSel[rng.Intn(len(fragSel))])))
+	}
+	// usually some ClusterCIDRs are there before the first node
+	for _, pi := range rng.Perm(len(ccNames))[:rng.Intn(4)] {
+		c := ccNames[pi]
+		addCC(c)
+		g.do("deliverCC " + c)
+		g.do("procCC " + c + " -")
+	}
+	for k := 0; k < length+20 && !g.dead; k++ {
+		x := rng.Intn(100)
+		switch {
+		case x < 10: // a node appears (name unknown to API and cache)
+			n := g.nodeNames()[rng.Intn(6)]
+			_, inAPI := w.nodes[n]
+			_, inCache, _ := w.nodeInf.inf.indexer.GetByKey(n)
+			if !inAPI && !inCache {
+				g.do(fmt.Sprintf("nodeAdd %s %s -", n, labelPalette[rng.Intn(len(labelPalette))]))
+			}
+		case x < 15:
+			if ks := sortedMapKeys(w.nodes); len(ks) > 0 {
+				g.do("nodeDel " + ks[rng.Intn(len(ks))])
+			}
+		case x < 18:
+			if ks := sortedMapKeys(w.nodes); len(ks) > 0 {
+				g.do("nodeDeleting " + ks[rng.Intn(len(ks))])
+			}
+		case x < 27: // a ClusterCIDR appears (each name once)
+			c := ccNames[rng.Intn(len(ccNames))]
+			if !usedCC[c] {
+				addCC(c)
+			}
+		case x < 31:
+			if ks := sortedMapKeys(w.ccs); len(ks) > 0 {
+				g.do("ccDel " + ks[rng.Intn(len(ks))])
+			}
+		case x < 33:
+			if ks := sortedMapKeys(w.ccs); len(ks) > 0 {
+				if rng.Intn(2) == 0 {
+					g.do(fmt.Sprintf("ccGen %s 2", ks[rng.Intn(len(ks))]))
+				} else {
+					g.do(fmt.Sprintf("ccAddFin %s example.com/other", ks[rng.Intn(len(ks))]))
+				}
+			}
+		case x < 50:
+			if st := g.stale("node"); len(st) > 0 {
+				n := st[rng.Intn(len(st))]
+				_, inAPI := w.nodes[n]
+				g.do(fmt.Sprintf("deliverNode %s %d", n, b2i(inAPI && rng.Intn(4) == 0)))
+			} else if ks := sortedMapKeys(w.nodes); len(ks) > 0 && rng.Intn(3) == 0 {
+				g.do(fmt.Sprintf("deliverNode %s 0", ks[rng.Intn(len(ks))]))
+			}
+		case x < 60:
+			if st := g.stale("cc"); len(st) > 0 {
+				g.do("deliverCC " + st[rng.Intn(len(st))])
+			} else if ks := sortedMapKeys(w.ccs); len(ks) > 0 && rng.Intn(3) == 0 {
+				g.do("deliverCC " + ks[rng.Intn(len(ks))])
+			}
+		case x < 86:
+			if ks := w.nodeQ.keys(); len(ks) > 0 {
+				n := ks[rng.Intn(len(ks))]
+				ws := []string{"-", "-", "-", "fail,ok", "fail,fail,fail", "fail,fail,ok", "ok"}[rng.Intn(7)]
+				g.do(fmt.Sprintf("procNode %s %d %s", n, b2i(rng.Intn(5) == 0), ws))
+			}
+		default:
+			if ks := w.ccQ.keys(); len(ks) > 0 {
+				wo := "-"
+				if rng.Intn(4) == 0 {
+					wo = []string{"fail", "lost"}[rng.Intn(2)]
+				}
+				g.do(fmt.Sprintf("procCC %s %s", ks[rng.Intn(len(ks))], wo))
+			}
+		}
+	}
+	g.stat["fragment-histories"]++
 }
 
 // lifeHistory: a directed history through the whole life of assignments and ClusterCIDRs — nodes served with
